@@ -293,6 +293,8 @@ func checkC18(c *Ctx) {
 	r.Rule("R18a", "every reference target is spelled by the name function of the key its schema is stored under", 8)
 	r.Rule("R18b", "the messages with a component schema are closed under reference edges and contain every RPC's input and output", 8)
 	r.Rule("R18c", "template variables and declared path parameters coincide; parameter locations are constant; path parameters are unconditionally required", 20)
+	r.Rule("R18j", "the visited set of the schema collector is keyed injectively (full name or descriptor pointer): two messages with the same short name are both collected, so no reference dangles (shared with C16/R16d)", 1)
+	visitedKeysInjective(c, "R18j", func(fn *types.Func) bool { return strings.HasSuffix(fn.Pkg().Path(), pkgOpenAPI) })
 	r.Rule("R18i", "every key of the paths object begins with a slash, whatever slashes the base path and the method path carry", 10)
 	c18PathKeys(c, "R18i")
 	r.Rule("R18d", "one document per service; operation ids are RPC names", 3)
